@@ -705,8 +705,8 @@ func canTstr(v any) bool {
 
 // canBstr reports whether v can be used as a CBOR bstr type.
 func canBstr(v any) bool {
-	_, ok := v.([]byte)
-	return ok
+	b, ok := v.([]byte)
+	return ok && b != nil // a nil slice would be encoded as CBOR null
 }
 
 // normalizeLabel tries to cast label into a int64 or a string.
